@@ -43,6 +43,16 @@ def direct_effects(body):
         for s in blk["stmts"]:
             if s["k"] != "assign":
                 continue
+            rv = s["rv"]
+            if rv.get("k") == "ref" and rv.get("mut"):
+                # `&mut (*r).field..` : whoever receives the borrow (a std method, a later `*p = v`) may write the field
+                seen_deref = False
+                for p in rv["place"]["proj"]:
+                    if p["k"] == "deref":
+                        seen_deref = True
+                    elif p["k"] == "field" and seen_deref and p.get("adt"):
+                        eff.add(("field", p["adt"], p["name"]))
+                        break
             proj = s["place"]["proj"]
             if any(p["k"] == "deref" for p in proj):
                 # store through a reference
